@@ -449,9 +449,16 @@ Qed.
 
 Lemma rinv_init servers : NoDup servers -> sv0 = servers -> RInv 0 servers 0 want EmptyString [].
 Proof.
-  intros Hnd <-. constructor; cbn; try reflexivity; try lia; try constructor; try exact Hnd.
+  intros Hnd <-. constructor.
+  - reflexivity.
+  - lia.
+  - reflexivity.
+  - exact Hnd.
   - apply incl_refl.
+  - constructor.
+  - constructor.
   - intros x _. split; reflexivity.
+  - reflexivity.
   - intros x H1 H2. contradiction.
 Qed.
 
